@@ -104,5 +104,6 @@ Definition run_nesting (inp : list Z) : list Z :=
 Definition run_net_nesting (inp : list Z) : list Z :=
   match inp with
   | [n; term] => [b2z (z2b term && (nesting_levels 0 n <=? max_nesting))]
+  | [n; term; _] => [b2z (z2b term && (nesting_levels 0 n <=? max_nesting))]   (* third: which extension message *)
   | _ => [-779]
   end.
